@@ -26,18 +26,6 @@ def _obs(record):
     return {"kind": int(m.group(1)), "idle": [int(x) for x in m.group(4).split()]}
 
 
-def p_handler_left(case, record, expected_text):
-    o = _obs(record)
-    return (o is not None and o["kind"] == 1
-            and _has(case, lambda n: n.get("t") == "pthrow")
-            and _has(case, lambda n: n.get("t") == "forof" and n.get("ret"))
-            and _has(case, lambda n: n.get("t") in ("try", "genret"))
-            # one try frame too many; inside a native callback the shifted marker frame also keeps a context, and then
-            # leaveAbrupt is skipped (flag left set)
-            and o["idle"][1] >= 1 and o["idle"][2] == 0
-            and ((o["idle"][0] == 0 and o["idle"][4] == 0) or (o["idle"][0] >= 1 and o["idle"][4] == 1)))
-
-
 def async_stage(ctx):
     """second goroutine interrupts looping scripts; harness built with -race"""
     binp = vcheck.build_harness(ctx, "c15", race=True)
@@ -121,9 +109,9 @@ CFG = {
         "sequentially consistent traces + Go sync/atomic and sync.Mutex synchronisation edges for the interleaving model",
         "interrupt_clean is proved for every program of the model, which includes generator return() through finally, "
         "wrapped/joined interrupt errors from host functions and a pending interrupt while a catchable exception closes "
-        "iterators; open: C15-N4 (not represented in the model, classified by a narrow predicate)",
+        "iterators (also when the exception was thrown by a host function); no finding of C15 is open",
     ],
-    "predicates": {"C15.handler_frame_left_when_iterator_close_is_interrupted_in_recover": p_handler_left},
+    "predicates": {},
     "manifest": {
         "text": ("proof (partial): over a Gallina transcription of the run loop, handleThrow and the frame discipline of every "
                  "Go<->JS re-entry, proved for all programs/positions/firing times: a set flag stops every run loop before its next "
@@ -131,7 +119,7 @@ CFG = {
                  "interrupts), an uncatchable payload reaches no catch/finally for every try stack, an idle interrupt aborts the "
                  "next call at its first instruction and leaves the runtime idle, and every interleaving of Interrupt calls with "
                  "run-loop polls is race-free on interruptVal by lock order. interrupt_clean (stacks idle, jobs dropped, flag cleared after every call) is "
-                 "proved for every program, without guard (F16/F20 repaired); open on the tree: C15-N4. "
+                 "proved for every program, without guard (F16/F20 repaired); no open finding. "
                  "Missing: Go-level data-race freedom beyond the protocol (race detector on executed "
                  "schedules only). Tie: 1500/100000 generated cases with an interrupt at every probe position compare error, "
                  "token, full event log, VerifIdle and a follow-up run with the model; 200/5000 asynchronous interrupts under -race."),
